@@ -296,7 +296,7 @@ def rule_index_pairing(ctx):
                             guarded = True
             r.check(guarded, "%s.%s|%s" % (owner, f, x.fn.path), "unguarded-growth", "index vector %s grows only when the argument count grew" % f, "index vector %s grows even when the inserted label already existed" % f, x.site.loc())
     # per-argument lists of a removed argument are reset; other mutations are push / swap_remove
-    allowed = {"init", "alloc::vec::Vec::push", "index_mut>alloc::vec::Vec::push", "index_mut>alloc::vec::Vec::swap_remove", "index_mut>alloc::vec::Vec::remove", "index_mut>store-through", "index_mut>alloc::vec::Vec::retain"}
+    allowed = {"init", "alloc::vec::Vec::push", "index_mut>alloc::vec::Vec::push", "index_mut>alloc::vec::Vec::swap_remove", "index_mut>alloc::vec::Vec::remove", "index_mut>store-through", "index_mut>alloc::vec::Vec::retain", "index_mut>core::mem::take", "index_mut>core::mem::replace", "index_mut>alloc::vec::Vec::clear"}
     for f in idx_fields:
         for x in _muts(prog, owner, f):
             r.check(x.op in allowed, "%s.%s|%s" % (owner, f, x.fn.path), "op=" + x.op, "%s in %s" % (x.op, x.fn.path), "unexpected operation on index vector %s: %s" % (f, x.op), x.site.loc())
